@@ -211,7 +211,9 @@ func NewMinimax(cfg MinimaxConfig) *MinimaxAI {
 		if mem == 0 {
 			mem = defaultTableMem
 		}
-		m.table = make([]tableEntry, mem/int64(reflect.TypeOf(tableEntry{}).Size()))
+		if n := mem / int64(reflect.TypeOf(tableEntry{}).Size()); n > 0 {
+			m.table = make([]tableEntry, n)
+		}
 	}
 
 	for i := range m.stack {
